@@ -38,6 +38,7 @@ func schemas3(tier string) []univ.SNode {
 	}
 	s = append(s, extra...)
 	s = append(s, univ.SNode{Schema: ref.Prim("string"), Chain: "compressible-block"})
+	s = append(s, univ.SNode{Schema: ref.Prim("long"), Chain: "sibling-fields"}, univ.SNode{Schema: ref.Prim("null"), Chain: "zero-width-records"})
 	for sh := 0; sh < bankShapes; sh++ {
 		s = append(s, univ.SNode{Schema: ref.Prim("long"), Chain: fmt.Sprintf("bank-cycling-%d", sh), Depth: sh})
 	}
@@ -124,6 +125,14 @@ func runCompressible(c *fw.Ctx, n univ.SNode) {
 func runNode3(c *fw.Ctx, idx int, n univ.SNode) {
 	if n.Chain == "compressible-block" {
 		runCompressible(c, n)
+		return
+	}
+	if n.Chain == "sibling-fields" {
+		runSiblings3(c)
+		return
+	}
+	if n.Chain == "zero-width-records" {
+		runZeroWidth3(c)
 		return
 	}
 	if strings.HasPrefix(n.Chain, "bank-cycling-") {
@@ -254,7 +263,7 @@ func init() {
 			if tier == "thorough" {
 				d, cap = 3, "all encodings of a datum at nesting depth <=1, the first 20000 at depth 2 and the first 256 at depth 3 (capped enumerations are counted in the evidence)"
 			}
-			return fmt.Sprintf("files written by the reference writer (never by the library): record{f:S, z:long(sentinel)} for every S of nesting depth <=%d over leaves {boolean,int,long,float,double,bytes,string,fixed,record,date,timestamp-millis/micros,RFC3339 string} and constructors {array,map,record,[null,S],[S,null]} plus type-compatible multi/single-branch unions (incl. a 70-branch union of fixed(4) types read into [4]byte: two-byte selectors); per S: every datum of a bounded alphabet × EVERY legal serialisation (arrays/maps split into every composition of blocks, each with or without byte-size prefix; %s) × every compatible Go target (pointer indirection, int/int16/int32/int64, float32/64, null.*, time.Time, *[]T, *map) as single-record files (narrow targets also with a narrow neighbour field that the writer's schema places first), files of 1000 and 20000 identical records (compression ratios far above 32:1), and 2–3-record files under every partition into file blocks × {null,deflate,snappy}, reader kinds rotating, each such file also with a second complete ReadFile of it started from inside the callback of its first record; plus streaming use — every sequence of <=6 records over 5 record shapes that allocate 0/1/2/5 pointed-to items with nullable fields null or set, under 2–4 block layouts × codecs rotating, with the callback comparing the delivered record and closing its bank at once or one record later, so that recycled banks are exercised, also after an earlier read that its callback abandoned (bank closed, error returned); oracle gv.Expect (value, or 'must be an error' for an integer that does not fit); non-trivial = a distinct (file, target) that was read and compared", d, cap)
+			return fmt.Sprintf("files written by the reference writer (never by the library): record{f:S, z:long(sentinel)} for every S of nesting depth <=%d over leaves {boolean,int,long,float,double,bytes,string,fixed,record,date,timestamp-millis/micros,RFC3339 string} and constructors {array,map,record,[null,S],[S,null]} plus type-compatible multi/single-branch unions (incl. a 70-branch union of fixed(4) types read into [4]byte: two-byte selectors); per S: every datum of a bounded alphabet × EVERY legal serialisation (arrays/maps split into every composition of blocks, each with or without byte-size prefix; %s) × every compatible Go target (pointer indirection, int/int16/int32/int64, float32/64, null.*, time.Time, *[]T, *map) as single-record files (narrow targets also with a narrow neighbour field that the writer's schema places first), files of 1000 and 20000 identical records (compression ratios far above 32:1), files whose records encode to ZERO bytes (empty record, null-only fields; up to 70000 records in a block of no bytes), records with three sibling fields of ONE Go type whose schemas agree in the outermost type name but differ below it (null first/second, millis/micros/plain, array<int>/array<long>, two fixed or record types for one Go type; every triple, plain and omitempty), and 2–3-record files under every partition into file blocks × {null,deflate,snappy}, reader kinds rotating, each such file also with a second complete ReadFile of it started from inside the callback of its first record; plus streaming use — every sequence of <=6 records over 5 record shapes that allocate 0/1/2/5 pointed-to items with nullable fields null or set, under 2–4 block layouts × codecs rotating, with the callback comparing the delivered record and closing its bank at once or one record later, so that recycled banks are exercised, also after an earlier read that its callback abandoned (bank closed, error returned); oracle gv.Expect (value, or 'must be an error' for an integer that does not fit); non-trivial = a distinct (file, target) that was read and compared", d, cap)
 		},
 		Assumptions: []string{
 			"'does not fit is an error' is anchored on integers only; doubles are only decoded into float32 when exactly representable... (datums are exact float32 values or the comparison is value-exact after float32 conversion)",
